@@ -8,8 +8,8 @@
 #include "crc.h"
 #include "sha256.h"
 #include "lzma_dec.h"
-#if __has_include("bcj.h")
-#include "bcj.h"
+#if __has_include("bcj_glue.h")
+#include "bcj_glue.h"
 #define REF_HAVE_BCJ 1
 #endif
 
